@@ -5,6 +5,8 @@
            path     the abstract path argument with concrete spellings (root "none" = no path given,
                     "dc" = DON'T-CARE: results out of an archive),
            mutant   the input was a damaged-but-accepted file,
+           member   [k |-> "none"] or the archive member this result was made from [k |-> "member", archseg, dirs, stem, exts]:
+                    the path the accessors must reflect is then <archive path>!/<member name> (Iface!MemberPath),
            dcwrapper  EPUB whose dc elements sit in an OEB 1.x <dc-metadata> wrapper (domain of KF-C04-01)]
      ev   one event per accessor call with the projected return:
           Text     get_full_text / unit.get_text / image.get_content_type|caption|description   [cls, utf8]
@@ -51,7 +53,7 @@ TraceUnits ==
     /\ Ev.cls = "str" /\ Utf8OK(Ev.cps)
     /\ (Ev.who = "title" /\ WellPaired(Ev.units)) => Strip(Ev.cps) = Strip(DecodeUnits(Ev.units))
 
-TraceInit == tid \in 1..Len(Traces) /\ l = 1 /\ path = Traces[tid].hdr.path
+TraceInit == tid \in 1..Len(Traces) /\ l = 1 /\ path = EffectivePath(Traces[tid].hdr.path, Traces[tid].hdr.member)
 TraceNext == \/ TraceText \/ TraceNum \/ TraceOptNum \/ TraceSize \/ TraceStream \/ TraceTable
              \/ TraceJson \/ TraceFileMeta \/ TraceProp \/ TraceUnits
 TraceSpec == TraceInit /\ [][TraceNext]_vars
